@@ -61,6 +61,10 @@ structure LS where
   stack : List Matcher            -- head = the section lines are currently added to
   pkgs : Str → Pkg
   conv : Conv
+  /-- `OptionBag.schema`: the schema object every option bag of this load consults for the type of the section it
+      descends into — the loader's schema when the schema matcher was created (`ExtendedConfigLoader.cook`), NOT the
+      derived schema a later `%import` replaces it by; `none` = no bag was made (the field is not consulted) -/
+  bagSchema : Option Schema := none
 
 def initSlot : Info → Slot
   | .key k => if k.name == ['+'] then (if k.multi then .mmap [] else .map []) else if k.multi then .many [] else .none
@@ -158,6 +162,7 @@ def bagSectionInfo (conv : Conv) (s : Schema) (b : Bag) (ty : Str) (name : Optio
     | some (.concrete t) =>
       let child ← mkBag conv t l
       pure ({ b with sectitems := r }, some child)
+    | Option.none => throw (Fail.cfg { kind := .schema, tag := "unknown type name" })   -- `self.schema.gettype(type_)`
     | _ => throw (Fail.internal "AttributeError")
 
 /-- `BaseMatcher.addValue(key, value, position)` (after the key type has produced `realkey`) -/
@@ -327,7 +332,8 @@ def lsStart (st : LS) (ty : Str) (name : Option Str) : M LS :=
       match parent.bag with
       | Option.none => pure { st with stack := newMatcher t name Option.none :: parent :: below }
       | some b =>
-        let (b', cb) ← bagSectionInfo st.conv st.schema b (t.name.getD []) name
+        -- the bag looks the type up in ITS schema (the one the load started with), not in the extended one
+        let (b', cb) ← bagSectionInfo st.conv (st.bagSchema.getD st.schema) b (t.name.getD []) name
         pure { st with stack := newMatcher t name cb :: { parent with bag := some b' } :: below }
 
 /-- `BaseMatcher.addSection(type_, name, sectvalue)` -/
@@ -421,7 +427,7 @@ def load (conv : Conv) (env : Env) (pkgs : Str → Pkg) (schema : Schema) (url :
   let overrides ← specs.mapM addOption
   let bag ← if overrides.isEmpty then pure Option.none else (mkBag conv schema.top overrides).map some
   let st0 : LS := { schema := schema, privateSchema := false, handlers := [], stack := [newMatcher schema.top Option.none bag],
-                    pkgs := pkgs, conv := conv }
+                    pkgs := pkgs, conv := conv, bagSchema := bag.map fun _ => schema }
   let active := match url with | some u => if u == [] then [] else [u] | none => []
   let ps ← parseLines 64 env loaderCtx active url lines 0 { ctx := st0, stack := [], defs := [] }
   match ps.ctx.stack with
